@@ -204,6 +204,40 @@ func (p *ParametersLiteral) UnmarshalBinary(data []byte) (err error) {
 	return json.Unmarshal(data, p)
 }
 
+// UnmarshalJSON reads a JSON representation on the target ParametersLiteral struct.
+// The distributions Xs and Xe are interfaces: they are decoded from their map representation
+// (see [ring.ParametersFromMap]), as the parameter literals of the schemes do.
+func (p *ParametersLiteral) UnmarshalJSON(b []byte) (err error) {
+
+	type alias ParametersLiteral
+
+	aux := struct {
+		*alias
+		Xs map[string]interface{}
+		Xe map[string]interface{}
+	}{alias: (*alias)(p)}
+
+	p.Xs, p.Xe = nil, nil
+
+	if err = json.Unmarshal(b, &aux); err != nil {
+		return err
+	}
+
+	if aux.Xs != nil {
+		if p.Xs, err = ring.ParametersFromMap(aux.Xs); err != nil {
+			return err
+		}
+	}
+
+	if aux.Xe != nil {
+		if p.Xe, err = ring.ParametersFromMap(aux.Xe); err != nil {
+			return err
+		}
+	}
+
+	return
+}
+
 // GetLogN returns the LogN field of the target [ParametersLiteral].
 // The default value DefaultLogN is returned if the field is nil.
 func (p ParametersLiteral) GetLogN() (LogN int) {
